@@ -152,7 +152,8 @@ Qed.
 (* where the markers among the pushed micro-ops come from *)
 Lemma handle_marks a m s pre s' :
   KS s -> QTags s -> FD s -> handle m s = (pre, s') ->
-  forall m', In m' pre -> markm a m' -> markm a m \/ exists c, m' = MRunItem c /\ In c (mainq s).
+  forall m', In m' pre -> markm a m' ->
+  markm a m \/ ((exists t, m = MRunMain t \/ m = MLoop t) /\ exists c, m' = MRunItem c /\ In c (mainq s)).
 Proof.
   intros KK QT F. destruct m; cbn [handle].
   - (* MTop *) unfold do_top. destruct o; repeat dest_match; unfold bad; intros Q; injp Q; nm_tac.
@@ -226,9 +227,9 @@ Proof.
     destruct (t >? now (set_mainq s [])).
     + destruct (fire t (set_now (set_mainq s []) t)) as [fired s2] eqn:FI. unfold fire in FI. injection FI as ? ?; subst.
       intros Q; injp Q. intros m' IN MK. rewrite map_app in IN. apply in_app_or in IN as [IN|IN].
-      * right. apply in_map_iff in IN as (c & <- & IC). eauto.
+      * right. split; [eauto|]. apply in_map_iff in IN as (c & <- & IC). eauto.
       * exfalso. eapply nomark_runitems_plain; [apply (FT t) | exact IN | exact MK].
-    + intros Q; injp Q. intros m' IN MK. right. apply in_map_iff in IN as (c & <- & IC). eauto.
+    + intros Q; injp Q. intros m' IN MK. right. split; [eauto|]. apply in_map_iff in IN as (c & <- & IC). eauto.
   - (* MLoop *)
     destruct (mainq s) as [|c l] eqn:MQ.
     + destruct (lazyq s) as [|c l] eqn:LQ; intros Q; injp Q; [nm_tac|].
@@ -236,7 +237,7 @@ Proof.
       eapply nomark_runitems_plain; [|exact IN | exact MK].
       pose proof (qt_lazy _ QT) as TL. rewrite LQ in TL. eapply Forall_impl; [|exact TL]. intros x [C _]; exact C.
     + intros Q; injp Q. intros m' IN MK. apply in_app_or in IN as [IN|[<-|[]]]; [|destruct MK].
-      right. apply in_map_iff in IN as (x & <- & IC). eauto.
+      right. split; [eauto|]. apply in_map_iff in IN as (x & <- & IC). eauto.
   - (* MDrain *)
     destruct (i >=? TEARDOWN_ROUNDS); [intros Q; injp Q; nm_tac|].
     destruct (mainq s) as [|c l]; intros Q; injp Q; [nm_tac|].
